@@ -613,6 +613,7 @@ def run(ctx, tier, seed, shard, nshards):
         shared_function_cases(ctx)
         property_posthoc_cases(ctx)
         late_invariant_cases(ctx)
+        recreated_then_decorated_cases(ctx)
 
     @given(strategy())
     def test(case):
@@ -739,6 +740,76 @@ def late_invariant_cases(ctx, only=None):
                 break
 
 
+def recreated_then_decorated_cases(ctx, only=None):
+    """A class with invariants is created ANEW from its namespace while the original stays in use (what
+    dataclasses.dataclass(slots=True) does; type(cls)(name, bases, dict(vars(cls)))) and an invariant is afterwards added to
+    one of the two: the other one - defined before that moment - keeps its verdicts. Enumerated: how the class is re-created
+    x where its invariants come from (own / inherited / both) x which of the two gets the new invariant x check_on."""
+    import dataclasses
+    import itertools
+    import icontract
+
+    for how, origin, target, on in itertools.product(("dataclass-slots", "type-call"), ("own", "inherited", "both"),
+                                                     ("re-created", "original"), ("CALL", "SETATTR", "ALL")):
+        key = [how, origin, target, on]
+        if only is not None and only != key:
+            continue
+        log = []
+
+        def inv(tag):
+            def c(self):
+                log.append(tag)
+                return True
+            return c
+
+        try:
+            Base = type(icontract.DBC)("Base", (icontract.DBC,), {"__init__": lambda self: None, "m": lambda self: 1})
+            if origin in ("inherited", "both"):
+                Base = icontract.invariant(inv("base"), check_on=icontract.InvariantCheckEvent.ALL)(Base)
+            ns = {"m": lambda self: 1, "__annotations__": {}}
+            if how == "type-call":
+                ns["__init__"] = lambda self: None
+            Orig = type(icontract.DBC)("Orig", (Base,), ns)
+            if origin in ("own", "both"):
+                Orig = icontract.invariant(inv("own"), check_on=icontract.InvariantCheckEvent.ALL)(Orig)
+            if how == "dataclass-slots":
+                New = dataclasses.dataclass(slots=True)(Orig)
+            else:
+                New = type(Orig)(Orig.__name__, Orig.__bases__, {k: v for k, v in vars(Orig).items() if k not in ("__dict__", "__weakref__")})
+            if New is Orig:
+                raise RuntimeError("the class was not re-created")
+
+            def probe(K):
+                out = []
+                o = K()
+                del log[:]
+                o.m()
+                out.append(sorted(set(log)))
+                del log[:]
+                try:
+                    o.attr = 1
+                except AttributeError:  # __slots__
+                    pass
+                out.append(sorted(set(log)))
+                return out
+
+            other = Orig if target == "re-created" else New
+            before = probe(other)
+            icontract.invariant(inv("late"), check_on=getattr(icontract.InvariantCheckEvent, on))(New if target == "re-created" else Orig)
+            after = probe(other)
+            mine = probe(New if target == "re-created" else Orig)
+            got = (before, after, "late" in mine[0] or "late" in mine[1])
+        except BaseException as e:  # noqa
+            before, after, got = None, "%s: %s" % (type(e).__name__, e), None
+        label = "class with %s invariants re-created by %s, then an invariant (check_on=%s) is added to the %s class" % (origin, how, on, target)
+        ctx.case(["recreated-then-decorated"] + key, True, sample={"directed": label, "other class before/after": [before, after]})
+        ctx.count("directed:recreated-then-decorated")
+        if got is None or before != after or not got[2]:
+            ctx.fail("recreated-then-decorated|%s|%s|%s" % (how, origin, target), {"recreated_then_decorated": key},
+                     "%s: the OTHER class evaluated (around a call, around an assignment) %r before and %r afterwards; the new "
+                     "invariant reached its own class: %s" % (label, before, after, got and got[2]))
+
+
 def shared_function_cases(ctx, only=None):
     """One contracted function object used as a member of a later class whose bases provide OTHER contracts for that
     name (an alias of a grand-parent's method below an intermediate override, an alias under another name, a contracted
@@ -828,6 +899,11 @@ def shared_function_cases(ctx, only=None):
 
 
 def replay(ctx, case):
+    if case.get("recreated_then_decorated"):
+        before = ctx.evaluations
+        recreated_then_decorated_cases(ctx, only=case["recreated_then_decorated"])
+        ctx.evaluations = before + 1
+        return
     if case.get("late_invariant"):
         before = ctx.evaluations
         late_invariant_cases(ctx, only=case["late_invariant"])
